@@ -662,6 +662,20 @@ class Machine:
         fr.regs[name] = Slice(v.obj, v.path, v.off, c, v.cap)
         raise _Retry()
 
+    def permute_entries(self, alt, st):
+        """iteration order of a map as a solver variable: one of the n! orders of its entries (n <= 4)"""
+        if type(st) is Union:
+            return mk_union([(g, self.permute_entries(alt, e)) for g, e in st.alts])
+        n = len(st)
+        if n <= 1:
+            return st
+        if n > 4:
+            raise BoundExceeded("map with %d entries ranged over in symbolic order" % n)
+        perms = list(itertools.permutations(st))
+        v = self.nondet("maporder", "int")
+        self.add_constraint(z3.And(v >= 0, v < len(perms)))
+        return mk_union([(_n(v == i), p) for i, p in enumerate(perms)])
+
     # -- panics
     def do_panic(self, alt, val, pos):
         """a definite panic on this alternative: unwind through deferred calls"""
@@ -1735,6 +1749,8 @@ def i_range(m, alt, fr, ins, work):
 
 def i_next(m, alt, fr, ins, work):
     it = m.ev(alt, fr, ins["iter"])
+    if type(it) is Union:
+        m.split_reg(alt, fr, ins["iter"], work)
     st, i = m.hget(alt, it.obj)
     if ins["isstring"]:
         if i >= len(st):
@@ -1747,17 +1763,23 @@ def i_next(m, alt, fr, ins, work):
         m.hset(alt, it.obj, (st, i + 1))
     else:
         outs = []
-        for g, entries in alts_of(st):
-            if i < len(entries):
-                outs.append((g, (True, entries[i][0], entries[i][1])))
-            else:
-                outs.append((g, (False, None, None)))
-        res = mk_union(outs)
-        if type(res) is Union:
-            res = (m.bool_of(mk_union([(g, r[0]) for g, r in res.alts])),
-                   mk_union([(g, r[1]) for g, r in res.alts if r[0]]),
-                   mk_union([(g, r[2]) for g, r in res.alts if r[0]]))
-        m.hset(alt, it.obj, (st, i + 1))
+        for gi, iv in alts_of(i):
+            for g, entries in alts_of(st):
+                gg = AND(gi, g)
+                if gg is False:
+                    continue
+                if iv < len(entries):
+                    outs.append((gg, (True, entries[iv][0], entries[iv][1])))
+                else:
+                    outs.append((gg, (False, None, None)))
+        if len(outs) == 1:
+            res = outs[0][1]
+        else:
+            # componentwise (a union of result tuples would be merged by shape, which is what we want, but keep it explicit)
+            res = (m.bool_of(mk_union([(g, r[0]) for g, r in outs])),
+                   mk_union([(g, r[1]) for g, r in outs if r[0]]),
+                   mk_union([(g, r[2]) for g, r in outs if r[0]]))
+        m.hset(alt, it.obj, (st, lift1(i, lambda x: x + 1)))
     fr.regs[ins["r"]] = res
     fr.idx += 1
 
